@@ -278,6 +278,8 @@ def render_decl(d: dict, mod: dict, defined: set) -> str:
         if kind == "slotsclass":
             out.append(f"    __slots__ = {tuple(names)!r}")
         for f in d["fields"]:
+            if d.get("sigonly"):
+                break  # the constructor's signature is the only place the member types are written
             out.append(f"    {f['n']}: {_ann_src(f['t'], mod, defined, fut)}")
         params = []
         for f in d["fields"]:
